@@ -64,7 +64,8 @@ func GetJsonDataType(t dsl.Type) JsonDataType {
 		}
 	case *dsl.EnumDefinition:
 		if td.IsFlags {
-			return JsonArray
+			// an array of names, or a number when the value is not a combination of the declared flags
+			return JsonArray | JsonNumber
 		}
 		return JsonString | JsonNumber
 	case *dsl.RecordDefinition:
